@@ -25,7 +25,7 @@
   (just the line with -N)                                   same theorems with `cfg.labels = false` (`pfx = []`)
   final fragment after all lines, label + bytes one record  records_atomic_partial (`Spec.tailOk`), tail_split_is_the_defect (D6)
   "(the whole fragment when it is shorter than 8 KiB)"      final_fragment_cut_exactly, final_fragment_whole_iff: ONE call iff
-                                                              length <= RELAY_TAILBUF-1 (regenerated; `tailbuf_ge`: >= 8192);
+                                                              length <= RELAY_TAILBUF-1 (regenerated; `tail_piece_covers_8KiB`: >= 8192);
                                                               longer: labelled piece of T-1 bytes, then unlabelled T-1-byte pieces
   no byte of one host's record inside another's,            records_atomic_any_schedule, records_atomic_index_any_schedule
     records of one host keep their order                      (LogOk: the global call sequence restricted to a stream is its own)
@@ -71,6 +71,14 @@ theorem domain_flag_correct (targets : List Bytes) (ht : ∀ t ∈ targets, ∀ 
     domainLoop targets none = Spec.spansDomains targets :=
   domainLoop_eq_spans targets ht
 
+/-- THE PIECE SIZE OF THE FINAL FLUSH COVERS THE PROPERTY'S 8 KiB.  `RELAY_TAILBUF` - 1 = the number of bytes the
+    first stdio call of `_flush_output` carries at most, learnt on every run from what the code under test does
+    with a rest that fills the buffer.  The lemmas of Relay/TailLemmas.lean hold for EVERY piece size and take this
+    inequality as a hypothesis; it is discharged here for the regenerated value.  A larger piece size -- up to
+    "the whole rest in one call" -- keeps it true; a smaller one (seeded C06-7 and C06-10: 2048) makes it false, and
+    then fragments of 2048..8191 bytes do come out in several calls on the real code. -/
+theorem tail_piece_covers_8KiB : Spec.wholeTailBelow ≤ Gen.RELAY_TAILBUF := by decide
+
 /-- `emission_is_record` for lines, BOTH forms of the code: the first `#lines` stdio calls are
     exactly the records `prefix ++ line`, one whole record per call, in order -- for every
     chunking -- and whatever follows them (the tail calls) comes after ALL line records
@@ -109,7 +117,7 @@ theorem records_atomic_partial (cfg : Cfg) (hfix : cfg.tailSplit = false) (host 
       ((runStream fifoOps cfg host t0host strm readRc b0 script).ems.map Em.bytes) = true := by
   obtain ⟨h1, h2⟩ := line_records_atomic cfg host t0host strm readRc hg hb0 script hdom
   have h0 : ∀ b ∈ Spec.tail script.flatten, b ≠ 0 := fun b hb => dom_noNul hdom b (mem_of_mem_rest hb)
-  have ht := tailEms_ok cfg host strm hfix _ (Spec.tail script.flatten) (Nat.lt_succ_self _) h0
+  have ht := tailEms_ok cfg host strm tail_piece_covers_8KiB hfix _ (Spec.tail script.flatten) (Nat.lt_succ_self _) h0
   unfold Spec.c06Ok
   simp only [h1, h2, beq_self_eq_true, Bool.true_and]
   exact ht
@@ -119,7 +127,7 @@ theorem records_atomic_partial (cfg : Cfg) (hfix : cfg.tailSplit = false) (host 
     repaired tail form): after the line records, the first stdio call carries the label and the first
     T-1 bytes of `t`, each further call the next T-1 bytes WITHOUT a label, the last one the remainder,
     where T = RELAY_TAILBUF is `sizeof buf` in `_flush_output`, regenerated from dsh.c on every run
-    (`tailbuf_ge`: T >= 8192 is all the proofs use).  So ... -/
+    (`tail_piece_covers_8KiB`: T >= 8192 is all the proofs use).  So ... -/
 theorem final_fragment_cut_exactly (cfg : Cfg) (hfix : cfg.tailSplit = false) (host t0host : Bytes) (strm : Nat)
     (readRc : Bool) {sizeMeta : Nat} (hg : growthOk sizeMeta = true) {b0 : PBuf}
     (hb0 : mkFifoBuf sizeMeta = some b0) (script : List Bytes)
@@ -147,7 +155,7 @@ theorem final_fragment_whole_iff (cfg : Cfg) (hfix : cfg.tailSplit = false) (hos
       (Spec.tail script.flatten).length ≤ Gen.RELAY_TAILBUF - 1) ∧
     ((Spec.tail script.flatten).length < 8192 → (Spec.tail script.flatten).length ≤ Gen.RELAY_TAILBUF - 1) := by
   rw [final_fragment_cut_exactly cfg hfix host t0host strm readRc hg hb0 script hdom ht]
-  refine ⟨?_, fun h => by have := tailbuf_val; omega⟩
+  refine ⟨?_, fun h => by have := tail_piece_covers_8KiB; simp only [Spec.wholeTailBelow] at this; omega⟩
   simp only [List.length_cons]
   by_cases hd : (Spec.tail script.flatten).drop (Gen.RELAY_TAILBUF - 1) = []
   · have hle : (Spec.tail script.flatten).length ≤ Gen.RELAY_TAILBUF - 1 := by simpa using hd
@@ -179,7 +187,7 @@ theorem tail_split_is_the_defect (cfg : Cfg) (hsplit : cfg.tailSplit = true) (hl
   obtain ⟨h1, h2⟩ := line_records_atomic cfg host t0host strm readRc hg hb0 script hdom
   have h0 : ∀ b ∈ Spec.tail script.flatten, b ≠ 0 := fun b hb => dom_noNul hdom b (mem_of_mem_rest hb)
   obtain ⟨d, rest, he, hok⟩ :=
-    tailEms_split cfg host strm hsplit hlab _ (Spec.tail script.flatten) (Nat.lt_succ_self _) h0 htail
+    tailEms_split cfg host strm tail_piece_covers_8KiB hsplit hlab _ (Spec.tail script.flatten) (Nat.lt_succ_self _) h0 htail
   have hp : pfx cfg host ≠ [] := by simp [pfx, labelPrefix, hlab, sep]
   have hte : (Spec.tail script.flatten).isEmpty = false := by simpa using htail
   have hpe : (pfx cfg host).isEmpty = false := by simpa using hp
